@@ -80,6 +80,9 @@ def judge(case):
         v.fail("build-error", key, {"error": repr(e)[:400], "tolerance": t})
         return v
     fmt = cfg["color_format"]
+    if max([Ref(s["svg"], cfg).max_coord() for s in srcs] + [0.0]) > c01.DOMAIN_COORD:
+        v.discard = "reference geometry beyond %d font units" % c01.DOMAIN_COORD
+        return v
     target = "otsvg" if fmt.startswith("picosvg") else "colr"
     t_on = _trees(on.font, srcs, v, "on")
     t_off = _trees(off.font, srcs, v, "off")
